@@ -839,6 +839,7 @@ func replay(run *core.Run) {
 	if run.Violations() == 0 {
 		fmt.Println("replay: no violation of class", class)
 	}
+	os.RemoveAll(scratch) // Finish exits the process, deferred calls do not run
 	run.Finish()
 }
 
